@@ -7,12 +7,18 @@ ASSUMPTIONS = ["histories are executed against the real runtime.guarded()/add_gu
                "and the identity of the objects) with the one before the region, whether it ended normally or by an exception",
                "exceptions are raised explicitly at any statement and by traced operations whose values are invalid; they are caught "
                "at any enclosing level by try/except BaseException",
-               "the statement-based block API (_if/_while/...) is represented by bare add_guard/restore_guard pairs"]
+               "the statement-based block API (_if/_while/...) is represented by bare add_guard/restore_guard pairs",
+               "every guarded() region of a history is ONE decorator object guarded(cond) decorating ONE function; re-entry events activate "
+               "that same decorator object again while it is active, either by recursion of the decorated function (R) or by decorating a "
+               "callee with the same decorator object (RS), to any depth, around any other event (raises, failing operations, try/except, "
+               "other regions); the triple is probed around these activations as well; a re-entry event outside every guarded() region "
+               "just runs its body; `with guarded(cond):` does not exist in the pinned tree and is not driven"]
 PARTIAL = ["C08_restore covers regions entered through guarded(); bare add_guard/restore_guard pairs (block API) have the closed counterexample C08_cex_raw_no_unwind (finding C08-block-unwind)",
            "the value of the effective guard at depth >= 2 (conjunction through the bitwise-AND gadget) is validated by the correspondence only; proved: the error-suppression flag nests as a disjunction (C08_ignore_nests) and the outermost guard is the condition (C08_outermost)"]
 
 
-def gen_events(rnd, depth, allow_raw, budget):
+def gen_events(rnd, depth, allow_raw, budget, ing=0):
+    """`ing` = number of enclosing G: regions (a re-entry event has a decorator to re-enter iff ing > 0)"""
     out = []
     n = rnd.randrange(1, 4)
     for _ in range(n):
@@ -25,10 +31,16 @@ def gen_events(rnd, depth, allow_raw, budget):
             v = rnd.choice([0, 1, 1, 0, 1, 2, -1]) if rnd.random() < 0.15 else rnd.choice([0, 1])
             kind = "A" if allow_raw and rnd.random() < 0.3 else "G"
             out.append(f"{kind}:{k}:{v}(")
-            out += gen_events(rnd, depth + 1, allow_raw, budget)
+            out += gen_events(rnd, depth + 1, allow_raw, budget, ing + (kind == "G"))
             out.append(")")
         elif c < 0.5:
-            out.append("T("); out += gen_events(rnd, depth + 1, allow_raw, budget); out.append(")")
+            # re-entry of the innermost enclosing decorator where there is one (rarely also where there is none); else try/except
+            if depth < 5 and (rnd.random() < 0.5 if ing else rnd.random() < 0.06):
+                out.append(rnd.choice(["R(", "R(", "RS("]))
+                out += gen_events(rnd, depth + 1, allow_raw, budget, ing)
+                out.append(")")
+            else:
+                out.append("T("); out += gen_events(rnd, depth + 1, allow_raw, budget, ing); out.append(")")
         elif c < 0.62:
             out.append(rnd.choice(["!", "!", "!b"]))
         elif c < 0.85:
@@ -40,16 +52,21 @@ def gen_events(rnd, depth, allow_raw, budget):
     return out
 
 
-def gen_valid(rnd, depth, budget):
-    """regions and in-range operations only: every run completes whatever the guard values"""
+def gen_valid(rnd, depth, budget, ing=0):
+    """regions, re-entries and in-range operations only: every run completes whatever the guard values"""
     out = []
     for _ in range(rnd.randrange(1, 4)):
         if budget[0] <= 0:
             break
         budget[0] -= 1
-        if rnd.random() < 0.45 and depth < 3:
+        c = rnd.random()
+        if c < 0.4 and depth < 3:
             out.append(f"G:L:@(")
-            out += gen_valid(rnd, depth + 1, budget)
+            out += gen_valid(rnd, depth + 1, budget, ing + 1)
+            out.append(")")
+        elif c < 0.55 and ing and depth < 4:
+            out.append(rnd.choice(["R(", "RS("]))
+            out += gen_valid(rnd, depth + 1, budget, ing)
             out.append(")")
         elif rnd.random() < 0.7:
             out.append(f"lt:{rnd.randrange(0, 60)}:{rnd.randrange(0, 60)}")
@@ -58,18 +75,56 @@ def gen_valid(rnd, depth, budget):
     return out
 
 
+def reentries(toks):
+    """does the history re-enter an active decorator (a R( / RS( with an enclosing G: region)?"""
+    st = []
+    for t in toks:
+        if t in ("R(", "RS(") and "G" in st:
+            return True
+        if t.endswith("("):
+            st.append(t[0])
+        elif t == ")":
+            st.pop()
+    return False
+
+
+def reentrant_family():
+    """small re-entrant histories run on every seed: guard value x condition kind x way the innermost activation ends x
+    re-entry form x depth, alone / under try / nested in another region / sequentially"""
+    out = []
+    for k, v in [("L", 0), ("L", 1), ("B", 0), ("B", 1), ("I", 1)]:
+        for form in ["R(", "RS("]:
+            for end in ["", "az:0", "lt:1:2", "!", "!b", "lt:5:300", "az:3"]:
+                e = [end] if end else []
+                out.append([f"G:{k}:{v}(", form] + e + [")", ")"])
+                out.append(["T(", f"G:{k}:{v}(", form] + e + [")", ")", ")", "az:0"])
+                out.append([f"G:{k}:{v}(", form, "R("] + e + [")", ")", ")"])
+                out.append([f"G:{k}:{v}(", "T(", form] + e + [")", ")", "lt:1:2", ")"])
+                out.append(["G:L:1(", f"G:{k}:{v}(", form] + e + [")", ")", "R(", ")", ")"])
+                out.append([f"G:{k}:{v}(", form] + e + [")", form, ")", ")"])
+    return out
+
+
 def explore(ctx, extended=False, focus=None):
     ex = Exploration()
     ex.rule = ("random trees of events (guarded() regions with conditions of kind secret-int / secret-bool / int and values 0/1 and "
-               "non-boolean, try/except at any level, explicit raises, comparison and assert_zero operations with valid and invalid "
-               "values), depth <= 4; two streams: only guarded() regions, and mixed with bare add_guard/restore_guard pairs; "
+               "non-boolean, re-entries of the innermost enclosing region's decorator object while it is active - by recursion of the "
+               "decorated function or through a callee decorated with the same object, nested to any depth, try/except at any level, "
+               "explicit raises, comparison and assert_zero operations with valid and invalid values); regions open below bracket depth 4, "
+               "re-entries below 5, try/except bounded by the event budget (<= 13 events) only; two streams: only "
+               "guarded() regions, and mixed with bare add_guard/restore_guard pairs; a fixed family of small re-entrant histories "
+               "(guard value x kind x exit x re-entry form x depth) is run on every seed; "
                "distinct = distinct token strings; non-trivial = contains a region")
     n = ctx.n(2000, 60000) * (4 if extended else 1)
     lines = []
     hist = []
-    for i in range(n):
+    fixed = reentrant_family()
+    for i in range(len(fixed) + n):
         allow_raw = i % 4 == 3
-        toks = gen_events(ctx.rnd, 0, allow_raw, [ctx.rnd.randrange(3, 14)])
+        if i < len(fixed):
+            toks, allow_raw = fixed[i], False
+        else:
+            toks = gen_events(ctx.rnd, 0, allow_raw, [ctx.rnd.randrange(3, 14)])
         bl = ctx.rnd.choice([4, 8, 8, 16])
         lines.append(f"H|h{i}|p={common.BN128},bl={bl}|{' '.join(toks)}")
         hist.append((toks, allow_raw))
@@ -79,6 +134,7 @@ def explore(ctx, extended=False, focus=None):
         toks = gen_valid(ctx.rnd, 0, [ctx.rnd.randrange(3, 10)])
         if not any(t.startswith("G:") for t in toks):
             continue
+        ex.count("pair:" + ("with-re-entry" if reentries(toks) else "without-re-entry"))
         a = [t.replace("@", str(ctx.rnd.choice([0, 1]))) if "@" in t else t for t in toks]
         b = [t.replace("@", str(ctx.rnd.choice([0, 1]))) if "@" in t else t for t in toks]
         pairs.append((f"H|pa{i}|p={common.BN128},bl=8|{' '.join(a)}", f"H|pb{i}|p={common.BN128},bl=8|{' '.join(b)}"))
@@ -108,6 +164,8 @@ def explore(ctx, extended=False, focus=None):
             if t.endswith("("): depth += 1; md = max(md, depth)
             elif t == ")": depth -= 1
         ex.count(f"depth:{md}"); ex.count(f"end:{fa[1]}"); ex.count("stream:" + ("mixed-raw" if raw else "guarded-only"))
+        reent = reentries(toks)
+        ex.count("re-entry:" + ("yes" if reent else "no"))
         if md > 0:
             ex.distinct.add(" ".join(toks))
         # wire/constraint counts are compared only where no exception was raised or swallowed (the model drops the
@@ -117,16 +175,20 @@ def explore(ctx, extended=False, focus=None):
             ex.disagreements.append({"case": line, "impl": "|".join(fa[:7])[:300], "model": b[:300]})
         else:
             ex.traces_validated += 1
-        bad = fa[7][4:] if len(fa) > 7 else ""
+        bad = "|".join(fa[7:])[4:] if len(fa) > 7 else ""      # the triples quoted in it contain `|`
         if bad:
-            ex.violations.append(Violation({"clause": "restore", "via": "guarded"},
-                                           f"guard triple not restored {bad[:200]}", {"line": line}))
+            # each entry is tagged by the worker: `reentrant:` = the activation that was not restored is a re-entry or had its
+            # decorator re-entered while it was active; `plain:` = a single activation of its decorator
+            for entry in bad.split(" ;; "):
+                tag = entry.split(":", 1)[0]
+                ex.violations.append(Violation({"clause": "restore", "via": "guarded", "reentrant": tag == "reentrant"},
+                                               f"guard triple not restored {entry.split(': ', 1)[-1][:260]}", {"line": line}))
         final_dirty = not (fa[2] == "G=N" and fa[3] == "IGN=0")
         if final_dirty:
             has_raw = any(t.startswith("A:") for t in toks)
-            ex.violations.append(Violation({"clause": "restore-final", "via": "raw" if has_raw else "guarded"},
+            ex.violations.append(Violation({"clause": "restore-final", "via": "raw" if has_raw else "guarded", "reentrant": reent},
                                            f"after the whole history the guard state is {fa[2]} {fa[3]}", {"line": line}))
-        if len(ex.samples) < 6 and md >= 2:
+        if md >= 2 and (len(ex.samples) < 3 or (len(ex.samples) < 8 and int(fa[0][1:]) >= len(fixed))):
             ex.samples.append(line.split("|", 2)[2])
     return ex
 
